@@ -470,7 +470,17 @@ inline void HMHarness::check(CheckCtx& c) {
   // ---- C08: linearizability against std::map (the erase(iterator) notes are instantaneous events)
   MapModel mm;
   mm.is_map = is_map;
-  if (ops.size() <= 64) {
+  if (h.weak) {
+    // Weak runs (C03): different keys live in different atomic objects and C03 does not promise one total order
+    // over operations on different keys (two threads that each insert a key and then miss the other's key is
+    // store buffering, which the release/acquire orders of the list permit). Every key on its own must still
+    // behave like a sequential set/map entry under happens-before precedence: no lost, duplicated or invented
+    // element, key/value integrity.
+    std::map<int64_t, std::vector<int>> by_key;
+    for (int i : ops) by_key[h.ops[i].a].push_back(i);
+    for (auto& kv : by_key)
+      if (kv.second.size() <= 64 && !check_linearizable(c, *this, mm, MapModel::State(), kv.second, "not-linearizable")) return;
+  } else if (ops.size() <= 64) {
     if (!check_linearizable(c, *this, mm, MapModel::State(), ops, "not-linearizable")) return;
   } else if ((int)c.prog.threads.size() == 1) {
     // long sequential program: replay in program order
